@@ -199,6 +199,11 @@ def gen_mac():
                         gg = list(groups)
                         gg[pos] = bad
                         out.append((':'.join(gg), REJECT))
+                for pos in (0, 5):
+                    for bad in ('0\uff15', '\u0660\u0660', '\uff10\uff10', 'a\u0661'):
+                        gg = list(groups)
+                        gg[pos] = bad            # digits, but not the ASCII hex digits of a MAC
+                        out.append((':'.join(gg), REJECT))
                 out.append((':'.join(groups) + ':', REJECT))
                 out.append((':' + ':'.join(groups), REJECT))
                 out.append((':'.join(groups) + '/24', REJECT))
